@@ -35,13 +35,31 @@ WARNING_CATEGORIES = {'RuntimeWarning': RuntimeWarning, 'UserWarning': UserWarni
                       'DeprecationWarning': DeprecationWarning, 'Warning': Warning, 'ScriptedWarning': ScriptedWarning}
 
 
-def scripted_class(nE, check, mixins=(), exo=('X',)):
-    """BaseModel subclass with endogenous E0..E{nE-1}, CHECK = the given subset, whose passes and hooks play a
-    script and which logs every solver-initiated call and the check vector after each pass."""
-    key = (nE, tuple(check), tuple(mixins), tuple(exo))
+# names of public members of the container / model classes: legal variable names (the generated `_evaluate` and the
+# solver address `self._size` / `__dict__['_size']` directly), which only a careless `getattr(self, name)` confuses
+MEMBER_NAMES = ['size', 'copy', 'eval', 'nbytes', 'LAGS', 'CODE', 'reindex', 'values', 'solve_t', 'to_dataframe', 'strict_', 'NAMES_']
+NAME_STYLES = ['plain', 'plain', 'plain', 'm0', 'm1', 'm2']
+
+
+def names_for(style, nE):
+    if style in (None, 'plain'):
+        return [f'E{i}' for i in range(nE)]
+    k = int(style[1:])
+    return [MEMBER_NAMES[(3 * k + i) % len(MEMBER_NAMES)] for i in range(nE)]
+
+
+def names_of(case):
+    return names_for(case.get('names'), case['nE'])
+
+
+def scripted_class(nE, check, mixins=(), exo=('X',), style=None):
+    """BaseModel subclass with endogenous E0..E{nE-1} (or member-like names, see `names_for`), CHECK = the given
+    subset, whose passes and hooks play a script and which logs every solver-initiated call and the check vector after
+    each pass."""
+    key = (nE, tuple(check), tuple(mixins), tuple(exo), style or 'plain')
     if key in _CLASSES:
         return _CLASSES[key]
-    names = [f'E{i}' for i in range(nE)]
+    names = names_for(style, nE)
 
     class Scripted(fsic.BaseModel):
         ENDOGENOUS = list(names)
@@ -123,12 +141,103 @@ def scripted_class(nE, check, mixins=(), exo=('X',)):
     return Scripted
 
 
+PROVENANCES = ['fresh', 'fresh', 'copy', 'reindexed', 'reindexed']
+
+
+def wider(span):
+    """A span of the same type that contains `span`'s labels two positions further right, plus one label after them
+    (None when that cannot be built: empty or repeated labels)."""
+    labs = list(span)
+    if not labs or len(set(map(repr, labs))) != len(labs):
+        return None
+    try:
+        import pandas as pd
+    except Exception:  # noqa: BLE001
+        pd = None
+    if isinstance(span, range):
+        return range(span.start - 2 * span.step, span.stop + span.step, span.step)
+    if pd is not None and isinstance(span, (pd.PeriodIndex, pd.DatetimeIndex)):
+        if len(labs) < 2 and getattr(span, 'freq', None) is None:
+            return None
+        freq = span.freq
+        if isinstance(span, pd.PeriodIndex):
+            return pd.period_range(start=span[0] - 2, periods=len(labs) + 3, freq=freq)
+        return pd.date_range(start=span[0] - 2 * freq, periods=len(labs) + 3, freq=freq)
+    if all(isinstance(x, (int, np.integer)) and not isinstance(x, bool) for x in labs):
+        lo, hi = min(labs), max(labs)
+        new = [lo - 2, lo - 1] + labs + [hi + 1]
+    elif all(isinstance(x, (float, np.floating)) for x in labs):
+        lo, hi = min(labs), max(labs)
+        new = [lo - 2.0, lo - 1.0] + labs + [hi + 1.0]
+    elif all(isinstance(x, str) for x in labs):
+        new = ['__pre1', '__pre2'] + labs + ['__post']
+        if len(set(new)) != len(new):
+            return None
+    else:
+        new = ['__pre1', '__pre2'] + labs + ['__post']
+    if pd is not None and isinstance(span, pd.Index):
+        return pd.Index(new)
+    if isinstance(span, np.ndarray):
+        return np.array(new) if not isinstance(new[0], str) or span.dtype.kind == 'U' else None
+    if isinstance(span, tuple):
+        return tuple(new)
+    return list(new)
+
+
+def warm(m, names=()):
+    """Use an instance the way a user would before the call under observation: default range, a short solve, label
+    lookups — anything a cache or a remembered range could latch on to."""
+    with warnings.catch_warnings():
+        warnings.simplefilter('ignore')
+        for f in (lambda: list(m.iter_periods()),
+                  lambda: m.solve(max_iter=1, failures='ignore', errors='ignore')):
+            try:
+                f()
+            except Exception:  # noqa: BLE001
+                pass
+        for lab in list(m.span)[:8]:
+            for f in (lambda: m.solve_period(lab, max_iter=1, failures='ignore', errors='ignore'),
+                      lambda: [m[nm, lab] for nm in names]):
+                try:
+                    f()
+                except Exception:  # noqa: BLE001
+                    pass
+
+
+def with_provenance(make, span, prov, names=(), prepare=None):
+    """An instance on `span` obtained the way `prov` says: constructed ('fresh'), a copy() of a used instance, or a used
+    instance of a wider span reindex()ed down to `span` (labels move by two positions)."""
+    if prov == 'reindexed':
+        w = wider(span)
+        if w is not None:
+            m0 = make(w)
+            if prepare:
+                prepare(m0)
+            warm(m0, names)
+            try:
+                return m0.reindex(span)
+            except Exception:  # noqa: BLE001
+                pass
+    if prov == 'copy':
+        m0 = make(span)
+        if prepare:
+            prepare(m0)
+        warm(m0, names)
+        return m0.copy()
+    return make(span)
+
+
 def build_instance(case, mixins=(), span=None, exo=('X',)):
-    cls = scripted_class(case['nE'], case['check'], mixins, exo)
+    cls = scripted_class(case['nE'], case['check'], mixins, exo, case.get('names'))
     n = case['n']
-    m = cls(list(range(n)) if span is None else span)
+    names = names_of(case)
+
+    def prepare(m0):        # what the scripted hooks need in order to run at all
+        m0.__dict__.update(script=[], before_script=[], after_script=[], calls=[], passes=[], v0=None,
+                           seen_at_before=None, write_mode='inplace')
+    m = with_provenance(cls, list(range(n)) if span is None else span, case.get('prov', 'fresh'), names, prepare)
     for i, row in enumerate(case['vals']):
-        m.__dict__[f'_E{i}'][:] = [unbits(b) for b in row]
+        m.__dict__['_' + names[i]][:] = [unbits(b) for b in row]
     m.status[:] = list(case['status'])
     m.iterations[:] = case['iters']
     d = m.__dict__
@@ -147,6 +256,11 @@ def vary_implementation_side(case, rng):
     """Choices that the property (and the model) cannot see but the code might: how user code stores a value
     (in place / by rebinding the series to a new list) and the category of a warning."""
     case['write'] = rng.choice(['inplace', 'inplace', 'rebind'])
+    case['prov'] = rng.choice(PROVENANCES)
+    case['names'] = rng.choice(NAME_STYLES)
+    if rng.random() < 0.4:      # the record of earlier solves (visible to the model too: it must never matter)
+        case['status'] = ''.join(rng.choice('-.FES') for _ in range(case['n']))
+        case['iters'] = [rng.choice([-1, 0, 3, 7]) for _ in range(case['n'])]
     cats = list(WARNING_CATEGORIES)
     for acts in case['script'] + [case['before'], case['after']]:
         for a in acts:
@@ -194,7 +308,8 @@ def world_str(m, nE):
     st = ''.join(str(x) for x in m.status)
     it = ','.join(str(int(x)) for x in m.iterations)
     ev = ','.join(m.calls)
-    vals = ';'.join(','.join(str(bits(x)) for x in m.__dict__[f'_E{i}']) for i in range(nE))
+    names = list(m.ENDOGENOUS)[:nE]
+    vals = ';'.join(','.join(str(bits(x)) for x in m.__dict__['_' + names[i]]) for i in range(nE))
     return f'{st}|{it}|{ev}|{vals}'
 
 
